@@ -53,6 +53,27 @@ func spec_importGoPath(p string) string {
 //@   loop 2 invariant forall a int :: 0 <= a && a < it2 ==> eq(mergedTags[ks2[a]], tags[ks2[a]])
 //@   loop 2 invariant forall k string, i int :: 0 <= i && i < it1 && has(tagsList[i], k) && (forall j int :: i < j && j < it1 ==> !has(tagsList[j], k)) && (forall a int :: 0 <= a && a < it2 ==> ks2[a] != k) ==> eq(mergedTags[k], tagsList[i][k])
 
+//@ func snippetWriter.Dumper
+//@   props C01
+//@   pure
+//@   requires sw != nil
+
+//@ func snippetWriter.Render
+//@   props C01 C09
+//@   requires sw != nil
+//@   ensures snippet == nil || snippet.IsNil() ==> spec_written(sw.Writer) == old(spec_written(sw.Writer))
+//@   ensures snippet != nil && !snippet.IsNil() ==> spec_written(sw.Writer) == old(spec_written(sw.Writer)) + spec_concatN(ys1, len(ys1))
+//@   loop 1 invariant spec_written(sw.Writer) == old(spec_written(sw.Writer)) + spec_concatN(ys1, it1)
+//@   note fragments are appended to the writer verbatim, in order, and nothing else is written (ys1 = the sequence yielded by snippet.Frag)
+
+// spec_concatN(xs, n): concatenation of the first n strings of xs.
+func spec_concatN(xs []string, n int) string {
+	if n <= 0 {
+		return ""
+	}
+	return spec_concatN(xs, n-1) + xs[n-1]
+}
+
 //@ func gengoCtx.pkgChanged
 //@   props C08
 //@   pure
@@ -80,6 +101,16 @@ func spec_assert(c bool) {
 	}
 }
 func spec_assume(c bool) {}
+
+// spec_written(w): everything written so far to the writer w (ghost content of io.Writer / bytes.Buffer / strings.Builder).
+func spec_written(w any) string { panic("ghost: writer content") }
+
+// spec_scanSrc(s) / spec_scanPos(s): ghost state of a *text/scanner.Scanner: the runes it delivers and its cursor.
+func spec_scanSrc(s any) []rune { panic("ghost: scanner source") }
+func spec_scanPos(s any) int    { panic("ghost: scanner cursor") }
+
+// spec_yielded(it): the sequence of values the iterator it yields when run to completion (ghost).
+func spec_yielded[T any](it func(yield func(T) bool)) []T { panic("ghost: yielded sequence") }
 
 // bounded (executable) quantifiers for spec functions: lo <= i < hi
 func spec_existsIn(lo, hi int, p func(int) bool) bool {
